@@ -13,7 +13,10 @@ SPEC = {
              "cut at least once; distinct = distinct (types, compression, body lengths, chunk sizes). WebSocket run: the "
              "same cases with the chunks sent as real WebSocket binary messages (gorilla, loopback) and read back through "
              "the repository's wsServerConn / wsClientConn under ReadPacket: message-per-write, one message per packet, "
-             "everything in one message, single cuts, random partitions, several buffered tails per connection"),
+             "everything in one message, single cuts, random partitions, several buffered tails per connection; body-length "
+             "sweep (every length 0..4300, windows around one MSS / powers of two / multiples of 1 KiB, plain and compressed, "
+             "each followed by a trailer packet); rate-limited writer (rtl); bodies of exactly the cap and cap-1, plain and "
+             "compressed (rtcap: compared in the harness, judged by the conclusion of C01_main with the regenerated constant)"),
     "trusted_base": [
         "Lean 4.33 kernel; axioms propext, Classical.choice, Quot.sound only (audited per theorem on every run)",
         "extractor /verif/extract (go/ast): constants and packet.Type predicates regenerated into Gen/*.lean",
